@@ -771,7 +771,7 @@ func main() {
 		vsync.SetJitter(true, uint64(r.Seed)*0x9e3779b97f4a7c15+1)
 	}
 	if os.Getenv("VERIF_FOCUS") == "interleave" {
-		n := r.N(200, 6000)
+		n := r.N(320, 8000)
 		vh.Parallel(n, 16, func(i int) { interleave(r, i) })
 		r.Require("interleaved_completions", int64(n*3))
 		r.Require("interleave_served", int64(n))
